@@ -34,13 +34,16 @@ TRUSTED = ['Coq 8.16.1 kernel (coqc; coqchk in the thorough tier)',
            'numpy: slicing, broadcasting, BLAS dot, np.exp (modelled; observed through the tie)',
            'Model/Propagate.v + Proofs/PropagateP.v (property C02) for the propagation step',
            'parametricity: the theorem instance (any ring) and the executed instance (group ring) are the same Gallina term']
-ASSUMPTIONS = ['segment masks pairwise disjoint, every segment and every intermediate field has more than one sample (else: known finding)',
-               'no tilt; pupil planes; wavelength, focal length, pixel scales dyadic; alpha = p/q, OPD = k*lambda/Lo, lcm <= 64',
+ASSUMPTIONS = ['theorems: untilted fields (the tilted-chip cases are tied and decided by the oracle only)',
+               'segment masks pairwise disjoint, every segment and every intermediate field has more than one sample (else: known finding)',
+               'pupil planes; angular tilt only as integer chip shifts; wavelength, focal length, pixel scales dyadic; alpha = p/q, OPD = k*lambda/Lo, lcm <= 64',
                'comparison tolerance 1e-9*(1+max|expected|)']
 RULE = ('random supports <= 7x7 (quick) / 10x10 (thorough), random labelling into 1..4 segments (bounding boxes overlap), chains of '
         '1..3 pupils with scalar/array amplitude and OPD, propagate_dft with shape/prop_shape/oversample 1..3; each case run '
-        'segmented and monolithic; plus whole-array vs cropped sub-array(s)-with-offset wavefronts; non-trivial = at least two '
-        'segments with overlapping bounding boxes, or at least two sub-arrays')
+        'segmented and monolithic; segmented pupils with a different tilt per segment and prop_shape < shape (chips disjoint / '
+        'disjoint / bridging in every order) compared with the sum of the single-segment propagations; whole-array vs cropped '
+        'sub-array(s)-with-offset wavefronts; non-trivial = at least two segments with overlapping bounding boxes, tilted chips, '
+        'or at least two sub-arrays')
 
 TOL = 1e-9
 F = Fraction
